@@ -48,6 +48,9 @@ type Repo struct {
 	nInfo      int
 	BeforeGet  func(nth int, r *Repo) // called (locked) before serving the nth Get SDR
 	BeforeInfo func(nth int, r *Repo) // called (locked) before serving the nth Get SDR Repository Info
+	// OpSupport (when OpSupportSet) is the operation support byte of Get SDR Repository Info.
+	OpSupport    byte
+	OpSupportSet bool
 	// KeepStamps: modifications leave both timestamps as they are.
 	KeepStamps bool
 	// StampFn, when set, gives the timestamp a modification is stamped with
@@ -122,6 +125,9 @@ func (r *Repo) Handle(ev *Event) (byte, []byte, bool) {
 		binary.LittleEndian.PutUint32(o[5:], r.AddTS)
 		binary.LittleEndian.PutUint32(o[9:], r.EraseTS)
 		o[13] = 0x2a // non-modal update, delete, reserve supported
+		if r.OpSupportSet {
+			o[13] = r.OpSupport
+		}
 		r.Log = append(r.Log, RepoReq{Kind: "info", Version: r.Version, Resv: r.Resv})
 		return 0, o, true
 	case 0x22:
@@ -269,9 +275,11 @@ func EncodeSuiteRecords(rs []SuiteRecord) []byte {
 
 // SensorDevice serves Get Sensor Reading.
 type SensorDevice struct {
-	mu       sync.Mutex
-	Readings map[[2]byte][]byte // (LUN, number) -> response bytes (reading, flags, states...)
-	Requests [][2]byte
+	mu        sync.Mutex
+	Readings  map[[2]byte][]byte // (LUN, number) -> response bytes (reading, flags, states...)
+	Requests  [][2]byte
+	failNext  byte
+	failArmed bool
 }
 
 func (s *SensorDevice) Set(lun, num byte, rsp []byte) {
@@ -283,12 +291,24 @@ func (s *SensorDevice) Set(lun, num byte, rsp []byte) {
 	s.mu.Unlock()
 }
 
+// FailNext makes the next Get Sensor Reading end with this completion code and no
+// reading bytes (code 0: a normal completion with an empty body).
+func (s *SensorDevice) FailNext(code byte) {
+	s.mu.Lock()
+	s.failNext, s.failArmed = code, true
+	s.mu.Unlock()
+}
+
 func (s *SensorDevice) Handle(ev *Event) (byte, []byte, bool) {
 	if ev.NetFn != 4 || ev.Cmd != 0x2d {
 		return 0, nil, false
 	}
 	s.mu.Lock()
 	defer s.mu.Unlock()
+	if s.failArmed {
+		s.failArmed = false
+		return s.failNext, nil, true
+	}
 	if len(ev.Data) != 1 {
 		return 0xc7, nil, true
 	}
@@ -308,6 +328,9 @@ type DCMISensorInfo struct {
 	IDs      map[[2]byte][]uint16
 	PageSize int           // record IDs per response, 1..8
 	ErrFor   map[byte]byte // entity ID -> completion code to return instead
+	// Overclaim: the total number of instances reported exceeds the record IDs the BMC
+	// ever returns by this much (pages beyond the real ones come back empty)
+	Overclaim int
 	// ErrFrom: entity ID -> first instance start from which requests fail with 0xCE
 	// (earlier pages are answered)
 	ErrFrom  map[byte]int
@@ -350,7 +373,7 @@ func (d *DCMISensorInfo) Handle(ev *Event) (byte, []byte, bool) {
 			return 0xc9, []byte{0xdc}, true
 		}
 		ps := d.PageSize
-		if ps <= 0 || ps > 8 {
+		if ps <= 0 || ps > 200 {
 			ps = 8
 		}
 		if start <= total {
@@ -361,7 +384,11 @@ func (d *DCMISensorInfo) Handle(ev *Event) (byte, []byte, bool) {
 			page = ids[start-1 : end]
 		}
 	}
-	o := []byte{0xdc, byte(total), byte(len(page))}
+	claimed := total + d.Overclaim
+	if claimed > 255 {
+		claimed = 255
+	}
+	o := []byte{0xdc, byte(claimed), byte(len(page))}
 	for _, id := range page {
 		o = append(o, byte(id), byte(id>>8))
 	}
